@@ -17,14 +17,23 @@
  *   O <i> <dsl text>                                    | h=<bits> s=<bits>        (inv child: truth of the atom per H / S line)
  *   R <id> <src> <tgt> <name> <for> <fk> <fv> <bodyhost> [a=<expr>]... [i=<expr>]... [u=<name>[,<name>...]]...
  *                                                       u= renders as `use (n1, n2)` in the apply header
- *   L <concs>                                           | p1=<res> w1=<res> [p16=<res> w16=<res>]
- *   A <H|S> <expr> <fv>                                 | fast=<ares> slow=<ares> dups=<n>
+ *                                                       the a= / i= tokens are the assign / ignore statements of the rule body and are
+ *                                                       printed in the order given (any interleaving)
+ *   L <concs> [q][x]                                    | p1=<res> w1=<res> [p16=<res> w16=<res>] [q1=<res>] [x1=<res>]
+ *                                                       q / x: also load the PERMUTED text as written / wrapped (Concurrency 1): rules in
+ *                                                       reverse order (in front of the objects), the statements of each rule in reverse
+ *                                                       order (in front of the attributes), services and hosts in reverse order
+ *   A <H|S> <expr> <fv>                                 | fast=<ares> slow=<ares> dups=<n> nf=<n> ns=<n> qf=<c> qs=<c> af=<c> as=<c>
+ *                                                       nf/ns: entries FilterUtility::GetFilterTargets returned (-1: raised) for the filter as
+ *                                                       written / wrapped; qf/qs and af/as: entries of `results` of GET /v1/objects/<type> and
+ *                                                       POST /v1/actions/reschedule-check through HttpHandler::ProcessRequest (e<status>: not 200;
+ *                                                       x: HTTP layer unavailable in this child)
  * The full format (values, prefix expressions, rendering, observations) is described in _work/scratch/c16/PROTOCOL.md.
  *
- * Modes:  gen --seed S --tier quick|thorough [--cases N] [--print-only]   (quick 4000 cases, L 1,16 on every 3rd;
- *                                                                         thorough 25000 cases, all L 1,16)
+ * Modes:  gen --seed S --tier quick|thorough [--cases N] [--print-only]   (quick 4000 cases, L 1 q, L 1,16 qx on every 3rd;
+ *                                                                         thorough 18000 cases, all L 1,16 qx)
  *         ops FILE
- *         child <inv|plain|wrap> <conc>    (internal: one configuration load, case lines on stdin)
+ *         child <inv|plain|wrap|perm|permwrap> <conc>    (internal: one configuration load, case lines on stdin)
  * The children do not call ConfigItem::ActivateItems: the observations are taken right after a successful CommitItems.
  * Every rendered filter is compiled separately in the child and its AST compared with the prefix form (FATAL if different).
  * Env:    C16_DEBUG=1  children keep stderr and print `# ...` diagnostics (config text, error texts)
@@ -46,6 +55,12 @@
 #include "base/namespace.hpp"
 #include "base/configuration.hpp"
 #include "base/exception.hpp"
+#include "base/io-engine.hpp"
+#include "base/tlsstream.hpp"
+#include "remote/httphandler.hpp"
+#include "remote/httpserverconnection.hpp"
+#include <boost/asio/spawn.hpp>
+#include <boost/beast/http.hpp>
 #include <algorithm>
 #include <atomic>
 #include <condition_variable>
@@ -362,6 +377,7 @@ struct RuleL {
 	std::string id, src, tgt, name, forSpec, fk, fv;
 	int bodyhost = 0;
 	std::vector<std::string> assigns, ignores, uses;
+	std::vector<std::pair<char, std::string>> stmts;  /* the a= / i= tokens in the order given: the order of the statements */
 };
 struct ALine { char type = 'H'; std::string expr, fv; };
 
@@ -377,6 +393,7 @@ struct Case {
 	std::vector<RuleL> rules;
 	std::vector<int> concs;
 	bool hasL = false;
+	bool permQ = false, permX = false;  /* L ... q / x: also load the permuted text as written (q1=) / wrapped (x1=) */
 	std::vector<ALine> alines;
 };
 
@@ -460,8 +477,8 @@ static void ParseCaseLine(Case& c, const std::string& line)
 		if (r.src != "S" && r.src != "N" && r.src != "D" && r.src != "T") throw Bad("bad rule source type");
 		if (r.tgt != "H" && r.tgt != "S") throw Bad("bad rule target type");
 		for (size_t i = 9; i < w.size(); i++) {
-			if (w[i].compare(0, 2, "a=") == 0) r.assigns.push_back(w[i].substr(2));
-			else if (w[i].compare(0, 2, "i=") == 0) r.ignores.push_back(w[i].substr(2));
+			if (w[i].compare(0, 2, "a=") == 0) { r.assigns.push_back(w[i].substr(2)); r.stmts.emplace_back('a', w[i].substr(2)); }
+			else if (w[i].compare(0, 2, "i=") == 0) { r.ignores.push_back(w[i].substr(2)); r.stmts.emplace_back('i', w[i].substr(2)); }
 			else if (w[i].compare(0, 2, "u=") == 0) {
 				for (auto& n : Split(w[i].substr(2), ',')) {
 					if (!IsIdent(n)) throw Bad("bad use name '" + n + "'");
@@ -472,7 +489,14 @@ static void ParseCaseLine(Case& c, const std::string& line)
 		}
 		c.rules.push_back(r);
 	} else if (w[0] == "L") {
-		if (w.size() != 2 || c.hasL) throw Bad("bad L line");
+		if ((w.size() != 2 && w.size() != 3) || c.hasL) throw Bad("bad L line");
+		if (w.size() == 3) {
+			for (char ch : w[2]) {
+				if (ch == 'q') c.permQ = true;
+				else if (ch == 'x') c.permX = true;
+				else throw Bad("bad L variants");
+			}
+		}
 		for (auto& t : Split(w[1], ',')) {
 			int n = atoi(t.c_str());
 			if (n < 1 || n > 256 || t.find_first_not_of("0123456789") != std::string::npos) throw Bad("bad concurrency");
@@ -520,56 +544,87 @@ static std::string VarsText(const std::string& os, const std::string& groups, co
 	return t;
 }
 
-static std::string InventoryText(const Case& c)
+static std::string GlobalsText(const Case& c)
 {
 	std::string t;
 	for (auto& k : c.consts) t += "const " + k.first + " = " + ValDsl(k.second) + "\n";
 	for (auto& u : c.uvars) t += "var " + u.first + " = " + ValDsl(u.second) + "\n";
-	for (auto& h : c.hosts)
-		t += "object Host " + Quote(h.name) + " {\n  check_command = \"dummy\"\n" + VarsText(h.os, h.groups, h.arr, h.dict, h.mix, h.joins) + "}\n";
-	for (auto& s : c.svcs)
-		t += "object Service " + Quote(s.name) + " {\n  host_name = " + Quote(s.host) + "\n  check_command = \"dummy\"\n"
-			+ VarsText(s.os, s.groups, s.arr, s.dict, s.mix, s.joins) + "}\n";
 	return t;
 }
 
-static std::string RulesText(const Case& c, bool wrap)
+static std::string HostText(const HostL& h)
+{
+	return "object Host " + Quote(h.name) + " {\n  check_command = \"dummy\"\n" + VarsText(h.os, h.groups, h.arr, h.dict, h.mix, h.joins) + "}\n";
+}
+
+static std::string SvcText(const SvcL& s)
+{
+	return "object Service " + Quote(s.name) + " {\n  host_name = " + Quote(s.host) + "\n  check_command = \"dummy\"\n"
+		+ VarsText(s.os, s.groups, s.arr, s.dict, s.mix, s.joins) + "}\n";
+}
+
+static std::string RuleText(const Case& c, const RuleL& r, bool wrap, bool perm)
 {
 	std::string t;
-	for (auto& r : c.rules) {
-		const char *type = r.src == "S" ? "Service" : r.src == "N" ? "Notification" : r.src == "D" ? "Dependency" : "ScheduledDowntime";
-		std::string tv = r.tgt == "H" ? "host" : "service";
-		t += std::string("apply ") + type + " " + Quote(r.name);
-		if (r.forSpec != "-") {
-			std::string term;
-			if (r.forSpec.compare(0, 2, "L:") == 0) term = ListDsl(r.forSpec.substr(2));
-			else if (r.forSpec.compare(0, 2, "M:") == 0) term = DictDsl(r.forSpec.substr(2));
-			else if (r.forSpec == "arr" || r.forSpec == "dict" || r.forSpec == "mix") term = tv + ".vars." + r.forSpec;
-			else if (r.forSpec == "harr" || r.forSpec == "hdict" || r.forSpec == "hmix") term = "host.vars." + r.forSpec.substr(1);
-			else throw Bad("bad for '" + r.forSpec + "'");
-			if (r.fk == "-") throw Bad("for without loop variable");
-			t += " for (" + r.fk + (r.fv != "-" ? " => " + r.fv : "") + " in " + term + ")";
-		}
-		t += std::string(" to ") + (r.tgt == "H" ? "Host" : "Service");
-		if (!r.uses.empty()) t += " use (" + Join(r.uses, ", ") + ")";
-		t += " {\n";
-		if (r.src == "S") t += "  check_command = \"dummy\"\n";
-		else if (r.src == "N") t += "  command = \"ncmd\"\n  users = [ \"u\" ]\n";
-		else if (r.src == "D") t += "  parent_host_name = \"zp\"\n";
-		else t += "  author = \"a\"\n  comment = \"c\"\n  ranges = { monday = \"00:00-01:00\" }\n";
-		if (r.fk != "-") t += "  vars.k = " + r.fk + "\n";
-		if (r.fv != "-") t += "  vars.v = " + r.fv + "\n";
-		if (r.bodyhost) {
-			t += "  vars.hn = host.name\n";
-			if (r.tgt == "S") t += "  vars.sn = service.name\n";
-		}
-		for (auto& a : r.assigns) {
-			std::string f = Dsl(ParseExpr(a), c.atoms);
-			t += "  assign where " + (wrap ? "(" + f + ") && true" : f) + "\n";
-		}
-		for (auto& i : r.ignores)
-			t += "  ignore where " + Dsl(ParseExpr(i), c.atoms) + "\n";
-		t += "}\n";
+	const char *type = r.src == "S" ? "Service" : r.src == "N" ? "Notification" : r.src == "D" ? "Dependency" : "ScheduledDowntime";
+	std::string tv = r.tgt == "H" ? "host" : "service";
+	t += std::string("apply ") + type + " " + Quote(r.name);
+	if (r.forSpec != "-") {
+		std::string term;
+		if (r.forSpec.compare(0, 2, "L:") == 0) term = ListDsl(r.forSpec.substr(2));
+		else if (r.forSpec.compare(0, 2, "M:") == 0) term = DictDsl(r.forSpec.substr(2));
+		else if (r.forSpec == "arr" || r.forSpec == "dict" || r.forSpec == "mix") term = tv + ".vars." + r.forSpec;
+		else if (r.forSpec == "harr" || r.forSpec == "hdict" || r.forSpec == "hmix") term = "host.vars." + r.forSpec.substr(1);
+		else throw Bad("bad for '" + r.forSpec + "'");
+		if (r.fk == "-") throw Bad("for without loop variable");
+		t += " for (" + r.fk + (r.fv != "-" ? " => " + r.fv : "") + " in " + term + ")";
+	}
+	t += std::string(" to ") + (r.tgt == "H" ? "Host" : "Service");
+	if (!r.uses.empty()) t += " use (" + Join(r.uses, ", ") + ")";
+	t += " {\n";
+	/* the assign / ignore statements in the order of the R line's tokens (reversed in the permuted variant); the permuted
+	 * variant also puts them in front of the attribute assignments */
+	std::string st;
+	std::vector<std::pair<char, std::string>> stmts = r.stmts;
+	if (perm) std::reverse(stmts.begin(), stmts.end());
+	for (auto& s : stmts) {
+		std::string f = Dsl(ParseExpr(s.second), c.atoms);
+		if (s.first == 'a') st += "  assign where " + (wrap ? "(" + f + ") && true" : f) + "\n";
+		else st += "  ignore where " + f + "\n";
+	}
+	if (perm) t += st;
+	if (r.src == "S") t += "  check_command = \"dummy\"\n";
+	else if (r.src == "N") t += "  command = \"ncmd\"\n  users = [ \"u\" ]\n";
+	else if (r.src == "D") t += "  parent_host_name = \"zp\"\n";
+	else t += "  author = \"a\"\n  comment = \"c\"\n  ranges = { monday = \"00:00-01:00\" }\n";
+	if (r.fk != "-") t += "  vars.k = " + r.fk + "\n";
+	if (r.fv != "-") t += "  vars.v = " + r.fv + "\n";
+	if (r.bodyhost) {
+		t += "  vars.hn = host.name\n";
+		if (r.tgt == "S") t += "  vars.sn = service.name\n";
+	}
+	if (!perm) t += st;
+	t += "}\n";
+	return t;
+}
+
+/* The configuration of a case. As written: constants, variables, hosts, services, rules - each in the order of the case's
+ * lines. Permuted (`perm`): constants, variables (the rules capture them), then the rules in reverse order - so a `to Service`
+ * rule may precede the `apply Service` rule that creates its targets - each with its assign/ignore statements in reverse
+ * order, then the services and the hosts, both in reverse order. */
+static std::string ConfigText(const Case& c, bool rules, bool wrap, bool perm)
+{
+	std::string t = GlobalsText(c);
+	if (!perm) {
+		for (auto& h : c.hosts) t += HostText(h);
+		for (auto& s : c.svcs) t += SvcText(s);
+		if (rules)
+			for (auto& r : c.rules) t += RuleText(c, r, wrap, false);
+	} else {
+		if (rules)
+			for (auto it = c.rules.rbegin(); it != c.rules.rend(); ++it) t += RuleText(c, *it, wrap, true);
+		for (auto it = c.svcs.rbegin(); it != c.svcs.rend(); ++it) t += SvcText(*it);
+		for (auto it = c.hosts.rbegin(); it != c.hosts.rend(); ++it) t += HostText(*it);
 	}
 	return t;
 }
@@ -735,9 +790,11 @@ static char EvalAtom(Expression *e, const Host::Ptr& host, const Service::Ptr& s
 	}
 }
 
-static std::string RunQuery(const char *type, const std::string& filter, const Dictionary::Ptr& fvars, const ApiUser::Ptr& user, int *dups)
+static std::string RunQuery(const char *type, const std::string& filter, const Dictionary::Ptr& fvars, const ApiUser::Ptr& user, int *dups,
+	int *total = nullptr)
 {
 	if (dups) *dups = 0;
+	if (total) *total = -1;
 	try {
 		QueryDescription qd;
 		qd.Types.insert(type);
@@ -756,6 +813,7 @@ static std::string RunQuery(const char *type, const std::string& filter, const D
 		size_t before = names.size();
 		names.erase(std::unique(names.begin(), names.end()), names.end());
 		if (dups) *dups = (int)(before - names.size());
+		if (total) *total = (int)before;
 		return "ok:" + (names.empty() ? std::string("-") : Join(names, ","));
 	} catch (const std::exception& ex) {
 		if (l_Debug) DebugText("query error", DiagnosticInformation(ex, false).GetData());
@@ -763,6 +821,72 @@ static std::string RunQuery(const char *type, const std::string& filter, const D
 	} catch (...) {
 		return "err";
 	}
+}
+
+/* ---- the real HTTP handlers (HttpHandler::ProcessRequest -> ObjectQueryHandler / ActionsHandler), as harness/c18.cpp drives them:
+ * a connected loopback socket pair under an AsioTlsStream that no handler touches, one coroutine per request */
+
+static boost::asio::io_context l_Io;
+static Shared<AsioTlsStream>::Ptr l_Stream;
+static HttpServerConnection::Ptr l_Conn;
+static bool l_HttpOk = false;
+
+static bool InitHttp()
+{
+	namespace asio = boost::asio;
+	using tcp = asio::ip::tcp;
+	try {
+		static asio::ssl::context ssl(asio::ssl::context::tls);
+		static tcp::acceptor acc(l_Io, tcp::endpoint(asio::ip::address_v4::loopback(), 0));
+		static tcp::socket peer(l_Io);
+		l_Stream = Shared<AsioTlsStream>::Make(l_Io, ssl);
+		l_Stream->lowest_layer().connect(acc.local_endpoint());
+		acc.accept(peer);
+		l_Conn = new HttpServerConnection("verif", false, l_Stream);
+		l_HttpOk = true;
+	} catch (const std::exception& ex) {
+		if (l_Debug) printf("# HTTP layer unavailable: %s\n", ex.what());
+		l_HttpOk = false;
+	}
+	return l_HttpOk;
+}
+
+/* One request through HttpHandler::ProcessRequest. Returns the number of entries of the response's `results` array
+ * (one per object the handler visited), or e<status> when the status is not 200, or "x" if the HTTP layer is unavailable. */
+static std::string HttpResults(boost::beast::http::verb verb, const std::string& target, const Dictionary::Ptr& body, const ApiUser::Ptr& user)
+{
+	namespace http = boost::beast::http;
+	if (!l_HttpOk) return "x";
+	http::request<http::string_body> req{verb, target, 11};
+	http::response<http::string_body> resp;
+	req.set(http::field::accept, "application/json");
+	req.body() = JsonEncode(body).GetData();
+	req.prepare_payload();
+	bool crashed = false;
+	IoEngine::SpawnCoroutine(l_Io, [&](boost::asio::yield_context yc) {
+		try { HttpHandler::ProcessRequest(*l_Stream, user, req, resp, yc, *l_Conn); } catch (const std::exception&) { crashed = true; }
+	});
+	l_Io.run();
+	l_Io.restart();
+	if (crashed) return "e599";
+	int status = (int)resp.result_int();
+	if (status != 200) return "e" + std::to_string(status);
+	try {
+		Dictionary::Ptr r = JsonDecode(resp.body());
+		Array::Ptr results = r->Get("results");
+		return std::to_string(results ? (long)results->GetLength() : -1L);
+	} catch (const std::exception&) {
+		return "e598";
+	}
+}
+
+static Dictionary::Ptr HttpBody(const char *type, const std::string& filter, const Dictionary::Ptr& fvars)
+{
+	Dictionary::Ptr body = new Dictionary();
+	body->Set("type", String(type));
+	body->Set("filter", String(filter));
+	if (fvars) body->Set("filter_vars", fvars->ShallowClone());
+	return body;
 }
 
 /* The names FilterUtility::EvaluateFilter binds in the frame for a target of this type (same loop, by reflection). */
@@ -814,10 +938,12 @@ static int ChildMain(const std::string& variant, int conc)
 			std::string norm;
 			if (NormaliseLine(line, norm)) ParseCaseLine(c, norm);
 		}
-		text = Preamble() + InventoryText(c);
-		if (variant == "plain") text += RulesText(c, false);
-		else if (variant == "wrap") text += RulesText(c, true);
-		else if (variant != "inv") throw Bad("bad variant");
+		if (variant == "plain") text = Preamble() + ConfigText(c, true, false, false);
+		else if (variant == "wrap") text = Preamble() + ConfigText(c, true, true, false);
+		else if (variant == "perm") text = Preamble() + ConfigText(c, true, false, true);
+		else if (variant == "permwrap") text = Preamble() + ConfigText(c, true, true, true);
+		else if (variant == "inv") text = Preamble() + ConfigText(c, false, false, false);
+		else throw Bad("bad variant");
 	} catch (const std::exception& ex) {
 		printf("FATAL %s\n", ex.what());
 		fflush(stdout);
@@ -868,12 +994,15 @@ static int ChildMain(const std::string& variant, int conc)
 		}
 		ApiUser::Ptr user = new ApiUser();
 		user->SetName("c16");
+		user->SetPermissions(new Array({ String("*") }));
+		if (ok && !c.alines.empty()) InitHttp();
 		for (auto& a : c.alines) {
 			if (!ok) { printf("A fast=? slow=? dups=0\n"); continue; }
-			std::string fast, slow;
-			int dups = 0;
+			std::string fast, slow, qf, qs, af, as;
+			int dups = 0, nf = -1, ns = -1;
 			try {
 				std::string dsl = Dsl(ParseExpr(a.expr), c.atoms);
+				std::string wrapped = "(" + dsl + ") && true";
 				Dictionary::Ptr fvars;
 				if (a.fv != "-") {
 					fvars = new Dictionary();
@@ -881,14 +1010,23 @@ static int ChildMain(const std::string& variant, int conc)
 				}
 				const char *type = a.type == 'H' ? "Host" : "Service";
 				if (l_Debug) printf("# filter: %s\n", dsl.c_str());
-				fast = RunQuery(type, dsl, fvars, user, &dups);
-				slow = RunQuery(type, "(" + dsl + ") && true", fvars, user, nullptr);
+				fast = RunQuery(type, dsl, fvars, user, &dups, &nf);
+				slow = RunQuery(type, wrapped, fvars, user, nullptr, &ns);
+				/* the same two filters through the real handlers: GET /v1/objects/<type> and POST /v1/actions/reschedule-check
+				 * (an action that only sets next_check / force_next_check; every visit of an object is one entry of `results`) */
+				namespace http = boost::beast::http;
+				std::string otarget = a.type == 'H' ? "/v1/objects/hosts" : "/v1/objects/services";
+				qf = HttpResults(http::verb::get, otarget, HttpBody(type, dsl, fvars), user);
+				qs = HttpResults(http::verb::get, otarget, HttpBody(type, wrapped, fvars), user);
+				af = HttpResults(http::verb::post, "/v1/actions/reschedule-check", HttpBody(type, dsl, fvars), user);
+				as = HttpResults(http::verb::post, "/v1/actions/reschedule-check", HttpBody(type, wrapped, fvars), user);
 			} catch (const Bad& ex) {
 				printf("FATAL %s\n", ex.what());
 				fflush(stdout);
 				_exit(3);
 			}
-			printf("A fast=%s slow=%s dups=%d\n", fast.c_str(), slow.c_str(), dups);
+			printf("A fast=%s slow=%s dups=%d nf=%d ns=%d qf=%s qs=%s af=%s as=%s\n", fast.c_str(), slow.c_str(), dups, nf, ns,
+				qf.c_str(), qs.c_str(), af.c_str(), as.c_str());
 		}
 	}
 	printf("END\n");
@@ -1002,7 +1140,7 @@ static int PrintCase(const CaseRun& cr, const std::vector<Job>& jobs)
 			return 3;
 		}
 		if (j.variant == "inv") inv = &j;
-		else byKey[(j.variant == "plain" ? "p" : "w") + std::to_string(j.conc)] = &j;
+		else byKey[std::string(j.variant == "plain" ? "p" : j.variant == "wrap" ? "w" : j.variant == "perm" ? "q" : "x") + std::to_string(j.conc)] = &j;
 	}
 	std::vector<std::string> oobs, aobs, cobs;
 	if (inv) {
@@ -1027,6 +1165,17 @@ static int PrintCase(const CaseRun& cr, const std::vector<Job>& jobs)
 			}
 			lobs += (lobs.empty() ? "" : " ") + std::string(v) + std::to_string(conc) + "=" + r[0];
 		}
+	}
+	for (const char *v : { "q", "x" }) {
+		if (!(v[0] == 'q' ? c.permQ : c.permX)) continue;
+		auto it = byKey.find(std::string(v) + "1");
+		std::vector<std::string> r;
+		if (it != byKey.end()) r = OutLines(*it->second, 'R');
+		if (r.size() != 1) {
+			printf("FATAL %s: no result of %s1\n", tag.c_str(), v);
+			return 3;
+		}
+		lobs += (lobs.empty() ? "" : " ") + std::string(v) + "1=" + r[0];
 	}
 	size_t oi = 0, ai = 0;
 	for (size_t i = 0; i < c.lines.size(); i++) {
@@ -1078,8 +1227,7 @@ static int RunAll(const std::vector<std::string>& lines)
 		if (!cr.parseError.empty()) continue;
 		/* things only the child notices otherwise: check the renderings here so that a bad case costs no processes */
 		try {
-			InventoryText(cr.c);
-			RulesText(cr.c, true);
+			ConfigText(cr.c, true, true, false);
 			for (auto& a : cr.c.alines) {
 				Dsl(ParseExpr(a.expr), cr.c.atoms);
 				if (a.fv != "-") for (auto& kv : KvList(a.fv)) ValDsl(kv.second);
@@ -1099,6 +1247,8 @@ static int RunAll(const std::vector<std::string>& lines)
 			add("plain", conc);
 			add("wrap", conc);
 		}
+		if (cr.c.permQ) add("perm", 1);
+		if (cr.c.permX) add("permwrap", 1);
 		cr.remaining = (int)cr.jobs.size();
 	}
 
@@ -1543,10 +1693,21 @@ struct Gen {
 			toks.push_back("i=" + Enc(ig));
 			if (r.below(8) == 0) toks.push_back("i=" + Enc(NameCmp("host", PickHost())));
 		}
+		/* an `assign where` written below the `ignore where` statements (the combination is about the whole rule) */
+		bool hasIgnore = false;
+		for (auto& t : toks) if (t.compare(0, 2, "i=") == 0) hasIgnore = true;
+		if (hasIgnore && !noAssign && pct(30)) {
+			P f = r.coin() ? Disjunct(tgt) : RandEx(2, tgt, noAtoms);
+			toks.push_back("a=" + Enc(f));
+			pure = false;
+		}
 		/* keep most Dependency-to-Host rules whose filter is not a plain name list away from zp */
 		if (avoidZp && !pure && pct(70)) toks.push_back("i=" + Enc(NameCmp("host", "zp")));
 		avoidZp = false;
 		useCreated = false;
+		/* every interleaving of the assign / ignore statements: half of the rules with several statements are shuffled */
+		if (toks.size() >= 2 && r.coin())
+			for (size_t i = toks.size(); i > 1; i--) std::swap(toks[i - 1], toks[r.below(i)]);
 		if (!ruleUses.empty()) {
 			std::vector<std::string> names(ruleUses.begin(), ruleUses.end());
 			for (size_t i = names.size(); i > 1; i--) std::swap(names[i - 1], names[r.below(i)]);
@@ -1737,7 +1898,7 @@ struct Gen {
 		for (int i = 0; i < nr; i++)
 			if (rk[i] != 0) rl[i] = GenRule(i, kinds[rk[i]][0], kinds[rk[i]][1], cascade && kinds[rk[i]][1] == 'S');
 		for (auto& l : rl) out.push_back(l);
-		out.push_back(both ? "L 1,16" : "L 1");
+		out.push_back(both ? "L 1,16 qx" : "L 1 q");
 		int nq = (int)r.below(5);
 		for (int i = 0; i < nq; i++) out.push_back(GenA());
 	}
@@ -1779,7 +1940,7 @@ int main(int argc, char **argv)
 			}
 			if (g.boundH.size() < 2 || g.boundS.size() < 2) { printf("FATAL child bound: no names\n"); fflush(stdout); _exit(3); }
 		}
-		int n = atoi(argOr(argc, argv, "--cases", thorough ? "25000" : "4000"));
+		int n = atoi(argOr(argc, argv, "--cases", thorough ? "18000" : "4000"));
 		for (int i = 0; i < n; i++) g.GenCase(i, thorough || i % 3 == 0, lines);
 		if (hasFlag(argc, argv, "--print-only")) {
 			for (auto& l : lines) puts(l.c_str());
